@@ -247,8 +247,13 @@ class SuiteWalk(object):
         self.t = tables
         self.sid = sid
         self.facts = []
+        self.consts = {}     # local name -> constant value, or UNKNOWN
+
+    UNKNOWN = object()
 
     def test(self, e):
+        if isinstance(e, ast.Name) and e.id in self.consts and self.consts[e.id] is not self.UNKNOWN:
+            return bool(self.consts[e.id])
         if isinstance(e, ast.Compare) and len(e.ops) == 1 and isinstance(e.ops[0], (ast.In, ast.NotIn)) \
                 and _is_suite_expr(e.left):
             c = attr_chain(e.comparators[0])
@@ -300,6 +305,15 @@ class SuiteWalk(object):
                 nm = f.attr if isinstance(f, ast.Attribute) else getattr(f, "id", None)
                 if nm:
                     self.facts.append(("call", nm))
+                if nm == "_sendError" and n.args:
+                    c = attr_chain(n.args[0]) or ""
+                    self.facts.append(("senderror", c.split(".")[-1]))
+                if nm == "_getMsg":
+                    for a in n.args:
+                        for x in ast.walk(a):
+                            c = attr_chain(x) if isinstance(x, ast.Attribute) else None
+                            if c and c.startswith("HandshakeType."):
+                                self.facts.append(("getmsg", c.split(".", 1)[1]))
 
     def walk(self, stmts):
         """returns True if control definitely leaves the function."""
@@ -314,12 +328,25 @@ class SuiteWalk(object):
                         return True
                 else:
                     self._calls(s.test)
+                    before = dict(self.consts)
                     a = self.walk(s.body)
+                    after_a = self.consts
+                    self.consts = dict(before)
                     b = self.walk(s.orelse)
+                    for k in set(after_a) | set(self.consts):
+                        if after_a.get(k, self.UNKNOWN) is not self.consts.get(k, self.UNKNOWN) and \
+                                after_a.get(k, self.UNKNOWN) != self.consts.get(k, self.UNKNOWN):
+                            self.consts[k] = self.UNKNOWN
+                        elif k not in self.consts or k not in after_a:
+                            self.consts[k] = self.UNKNOWN
                     if a and b and s.orelse:
                         return True
             elif isinstance(s, (ast.For, ast.While)):
                 self._calls(s.iter if isinstance(s, ast.For) else s.test)
+                if isinstance(s, ast.For):
+                    for x in ast.walk(s.target):
+                        if isinstance(x, ast.Name):
+                            self.consts[x.id] = self.UNKNOWN
                 self.walk(s.body)
                 self.walk(s.orelse)
             elif isinstance(s, ast.With):
@@ -332,6 +359,11 @@ class SuiteWalk(object):
                 self.walk(s.finalbody)
             elif isinstance(s, ast.Assign):
                 val = self.value(s.value)
+                for t in s.targets:
+                    for x in ast.walk(t):
+                        if isinstance(x, ast.Name):
+                            self.consts[x.id] = s.value.value if (
+                                isinstance(s.value, ast.Constant) and x is t) else self.UNKNOWN
                 for t in s.targets:
                     k = attr_chain(t)
                     if k:
@@ -560,6 +592,7 @@ def rule_kx(ctx):
     ske_w = ctx.index.func("messages:ServerKeyExchange.writeParams")
     cke_p = ctx.index.func("messages:ClientKeyExchange.parse")
     cke_w = ctx.index.func("messages:ClientKeyExchange.write")
+    fck = ctx.index.func("tlsconnection:TLSConnection._clientKeyExchange")
     client_cls = {"srp": "SRPKeyExchange", "dhe": "DHE_RSAKeyExchange", "dh_anon": "DHE_RSAKeyExchange",
                   "ecdhe": "ECDHE_RSAKeyExchange", "ecdh_anon": "ECDHE_RSAKeyExchange",
                   "rsa": "RSAKeyExchange"}
@@ -600,6 +633,34 @@ def rule_kx(ctx):
                   "%s server key exchange" % lab,
                   "server runs %s with %s for %s (assert False reached: %s); name implies %s with %s" % (
                       gotflow, got, lab, bool(af), server_flow[kx], exp), fsv.loc())
+        # what the client expects from the server and verifies, per suite
+        facts = walk_suite(t, fck, sid)
+        msgs = {f[1] for f in facts if f[0] == "getmsg"}
+        callsc = {f[1] for f in facts if f[0] == "call"}
+        alerts = {f[1] for f in facts if f[0] == "senderror"}
+        authd = p["auth"] is not None
+        ctx.check(R, ("certificate" in msgs) == authd and ("_clientGetKeyFromChain" in callsc) == authd,
+                  fck.qname, "%s client expects server Certificate" % lab,
+                  "client %s a server Certificate for %s; name implies %s" % (
+                      "expects" if "certificate" in msgs else "does not expect", lab,
+                      "certificate authentication" if authd else "no certificate"), fck.loc())
+        ctx.check(R, ("server_key_exchange" in msgs) == (kx != "rsa"), fck.qname,
+                  "%s client expects ServerKeyExchange" % lab,
+                  "client %s ServerKeyExchange for %s" % (
+                      "expects" if "server_key_exchange" in msgs else "skips", lab), fck.loc())
+        must_verify = authd and kx != "rsa"
+        ctx.check(R, ("verifyServerKeyExchange" in callsc) == must_verify, fck.qname,
+                  "%s ServerKeyExchange signature verification" % lab,
+                  "client %s the ServerKeyExchange signature for %s; name implies %s" % (
+                      "verifies" if "verifyServerKeyExchange" in callsc else "does not verify", lab,
+                      "a signature by the certified key" if must_verify else "an unsigned exchange"),
+                  fck.loc())
+        client_auth_ok = authd and kx != "srp"
+        ctx.check(R, ("unexpected_message" in alerts) == (not client_auth_ok), fck.qname,
+                  "%s CertificateRequest admissibility" % lab,
+                  "client %s a CertificateRequest for %s; the suite %s client certificates" % (
+                      "refuses" if "unexpected_message" in alerts else "accepts", lab,
+                      "allows" if client_auth_ok else "does not allow"), fck.loc())
         # signed ServerKeyExchange <=> certificate-authenticated, non-RSA-transport suite
         for fi, fields, allf, what in ((ske_p, ske_fields, all_ske, "ServerKeyExchange.parse"),
                                        (ske_w, ske_fields, all_ske, "ServerKeyExchange.writeParams"),
@@ -700,6 +761,33 @@ def rule_prf(ctx):
                           sorted(_tokens(tarm)), sorted(_tokens(farm))), fi.loc(n))
     if count < 12:
         raise AnalysisError("C20.PRF: %d sha384PrfSuites selection sites found, confirmed floor 12" % count)
+    # no hash selection on any other suite list (the HMAC lists say nothing about the PRF),
+    # except the two functions whose job is the HMAC itself
+    MAC_SITES = ("_getMacSettings", "canonicalMacName")
+    for fi in ctx.index.all_functions():
+        if fi.name in MAC_SITES:
+            continue
+        for n in own_nodes(fi.node):
+            if not isinstance(n, (ast.If, ast.IfExp)):
+                continue
+            test = n.test
+            lists = [attr_chain(c.comparators[0]) for c in ast.walk(test)
+                     if isinstance(c, ast.Compare) and len(c.ops) == 1
+                     and isinstance(c.ops[0], (ast.In, ast.NotIn))]
+            lists = [l for l in lists if l and l.startswith("CipherSuite.")
+                     and l not in ("CipherSuite.sha384PrfSuites", "CipherSuite.sha256PrfSuites")]
+            if not lists:
+                continue
+            if isinstance(n, ast.IfExp):
+                tarm, farm = [n.body], [n.orelse]
+            else:
+                tarm, farm = n.body, (n.orelse or _implicit_else(fi.node, n))
+            tk = {_prf_kind(x) for x in _tokens(tarm)} - {None}
+            fk = {_prf_kind(x) for x in _tokens(farm)} - {None}
+            if tk and fk and tk != fk and len(tk) == 1 and len(fk) == 1:
+                ctx.fail(R, fi.qname, norm(test) + " selection",
+                         "a SHA-256/SHA-384 selection is made on %s; only sha384PrfSuites says which "
+                         "PRF/HKDF hash a suite uses" % lists, fi.loc(n))
     # _getPRFParams per suite
     t = _tables(ctx)
     fp = ctx.index.func("tlsconnection:TLSConnection._getPRFParams")
